@@ -308,6 +308,9 @@ pub struct Case {
 	pub silent: Vec<usize>,
 	/// Codec.tla AllocBound per frame: largest single allocation request a read of this frame may make
 	pub alloc_max: Vec<usize>,
+	/// Codec.tla WriterVersion: the protocol version the built frames of the stream are serialised
+	/// with, which is then the version of the connection (0: the stream does not depend on it)
+	pub version: u32,
 }
 
 impl Case {
@@ -323,6 +326,7 @@ impl Case {
 				.map(|x| x.as_str().unwrap().to_string())
 				.collect(),
 			total: v["total"].as_u64().unwrap() as usize,
+			version: v["version"].as_u64().unwrap_or(0) as u32,
 			starts: v["starts"]
 				.as_array()
 				.unwrap()
@@ -575,6 +579,17 @@ pub fn compare(case: &Case, sent: &[Sent], stream: &[u8], out: &RunOut) -> Optio
 							),
 						)
 					}
+					// the body is shorter than what the message needs and a message was returned all the same
+					Obs::Msg { t, .. } if case.classes[fi] == "baddecode" && *t == f.t && f.need > f.len as i64 => {
+						return mm(
+							"short_body_accepted",
+							fi,
+							format!(
+								"frame of type {} with a body of {} byte(s), of which its content needs {}, was returned as a message",
+								f.t, f.len, f.need
+							),
+						)
+					}
 					o => return mm("err_expected", fi, format!("got {}", o.brief())),
 				}
 				oi += 1;
@@ -623,11 +638,11 @@ fn landmarks(case: &Case) -> Vec<usize> {
 		let e = b + HDR + f.body;
 		let mut pts = vec![b, b + 2, b + 3, b + HDR, b + HDR + 2, e, e + f.att];
 		if f.t == 9 {
-			for j in [1usize, 2, 31, 32, 33, f.items.saturating_sub(1), f.items] {
-				pts.push(b + HDR + 2 + j * 257);
+			for j in [1usize, 2, 3, 31, 32, 33, 64, f.items.saturating_sub(1), f.items] {
+				pts.push(b + HDR + 2 + f.item_end(j.min(f.items)));
 			}
 			pts.push(b + HDR + 2 + 310);
-			pts.push(b + HDR + 2 + 257 + 310);
+			pts.push(b + HDR + 2 + f.item_end(1.min(f.items)) + 310);
 		}
 		if f.att > 0 {
 			pts.push(e + 48_000);
@@ -661,6 +676,11 @@ fn plans(case: &Case, rng: &mut StdRng, thorough: bool) -> Vec<Plan> {
 	// every single split point (short streams), else every structural one plus a random sample
 	let singles: Vec<usize> = if total <= 600 {
 		(1..total).collect()
+	} else if total > 1_000_000 {
+		// megabytes of body (limits of the other networks): the structural points of the first frame only
+		let mut s: Vec<usize> = vec![3, HDR, HDR + 1, total / 2, total - 1];
+		s.retain(|c| *c > 0 && *c < total);
+		s
 	} else {
 		let mut s = landmarks(case);
 		s.extend(1..24.min(total));
@@ -681,7 +701,7 @@ fn plans(case: &Case, rng: &mut StdRng, thorough: bool) -> Vec<Plan> {
 	}
 	// seeded random multi-splits with 0-5 ms gaps
 	let lm = landmarks(case);
-	for k in 0..(if thorough { 10 } else { 3 }) {
+	for k in 0..(if total > 1_000_000 { 1 } else if thorough { 10 } else { 3 }) {
 		let n = rng.gen_range(2, 7);
 		let mut cuts: Vec<usize> = (0..n)
 			.map(|_| {
@@ -763,14 +783,14 @@ fn gap_candidates(case: &Case, rng: &mut StdRng, out: &mut Vec<GapCand>) {
 			}
 			if f.items > 0 {
 				let j = rng.gen_range(0, f.items.min(32));
-				add(hb + 2 + j * 257 + rng.gen_range(1, 257), "item_batch1");
+				add(hb + 2 + f.item_end(j) + rng.gen_range(1, 257), "item_batch1");
 				if f.items.min(32) > 1 {
-					add(hb + 2 + rng.gen_range(1, f.items.min(32)) * 257, "item_edge");
+					add(hb + 2 + f.item_end(rng.gen_range(1, f.items.min(32))), "item_edge");
 				}
 			}
 			if f.items > 32 {
 				let j = rng.gen_range(32, f.items);
-				add(hb + 2 + j * 257 + rng.gen_range(0, 257), "item_later");
+				add(hb + 2 + f.item_end(j) + rng.gen_range(0, 257), "item_later");
 			}
 		} else if f.body >= 2 {
 			add(hb + rng.gen_range(1, f.body), "body");
@@ -860,7 +880,15 @@ fn render_case(case: &Case, pool: &Pool) -> Result<(Vec<Sent>, Vec<u8>), String>
 	let mut stream: Vec<u8> = vec![];
 	for (fi, f) in case.frames.iter().enumerate() {
 		if sent[fi].bytes.len() != HDR + f.body + f.att || stream.len() != case.starts[fi] {
-			return Err(format!("layout of frame {} differs from the model", fi));
+			return Err(format!(
+				"layout of frame {} differs from the model: {} bytes at offset {}, the model has {} at {}{}",
+				fi,
+				sent[fi].bytes.len(),
+				stream.len(),
+				HDR + f.body + f.att,
+				case.starts[fi],
+				if sent[fi].bytes.is_empty() { format!(" ({})", sent[fi].digest) } else { String::new() }
+			));
 		}
 		stream.extend_from_slice(&sent[fi].bytes);
 	}
@@ -1023,7 +1051,7 @@ pub fn replay(args: &Args) -> i32 {
 							"k": case.frames[0].k, "t": case.frames[0].t, "label": case.frames[0].label(), "plan": {}}));
 					}
 				}
-				let version = VERSIONS[(ci + j) % 4];
+				let version = if case.version > 0 { case.version } else { VERSIONS[(ci + j) % 4] };
 				exec_plan(&sh, &listener, case, &sent, &stream, plan, version, false, true);
 			}
 		}));
@@ -1088,6 +1116,7 @@ pub fn replay(args: &Args) -> i32 {
 				for (pi, plan) in ps.iter().enumerate() {
 					let version = match &only_plan {
 						Some(p) => p["version"].as_u64().unwrap_or(1000) as u32,
+						None if case.version > 0 => case.version,
 						None => VERSIONS[(ci + pi) % 4],
 					};
 					if exec_plan(&sh, &listener, case, &sent, &stream, plan, version, corrupt && pi == 0, reported < 2) {
